@@ -242,6 +242,7 @@ def run(chk):
         round_trip(chk, eng, key, route, label)
     options_present(chk, eng)
     output_parsers(chk)
+    timestamp_exactness(chk)
     chk.engine_stats = dict(eng.stats)
     chk.notes.append("normal form N: optional '' == absent; optional object with all fields absent == absent; JSON route: timestamps within 1 ms, exact on ms-aligned instants")
 
@@ -317,3 +318,46 @@ def output_parsers(chk):
                     goal = z3.And(goal, z3.Not(have_ops), z3.BoolVal(len(lst["items"]) == 0))
                 goal = z3.And(goal, z3.If(have_marker, ops.values_equal(s, inner["next_marker"], marker), is_none(inner["next_marker"])))
             chk.prove(f"C20.{which.lower()}.from_dict", s.pc, goal, desc=f"{which}.from_dict: every operation of the answer is parsed (N-equal to the operation whose wire form it is), in order; token (\"\" if absent) and NextMarker (None if absent) are taken over")
+
+
+# ------------------------------------------------------------------------------------------------ exactness of the millisecond conversion
+def _replay_ts(inputs):
+    r_ = native("timestamp_rounding_replay.py", {})
+    return bool(r_.get("confirmed")), r_
+
+
+def timestamp_exactness(chk):
+    """to_unix_millis under assumption A is exact on millisecond-aligned instants (C20.*.json.rt.*timestamp).  In doubles it is exact only if no
+    value that went through float arithmetic is truncated: provenance of the operand of int() is tracked on the real body."""
+    class H(type(codec_hooks())):
+        def on_binop(self, eng_, s, node, a, b, result):
+            if is_sym(result, "real") and any(is_sym(x, "real") for x in (a, b)):
+                s.ghost["__float_arith__"] = s.ghost.get("__float_arith__", frozenset()) | {result.t.sexpr()}
+
+        def ext_call(self, eng_, s, name, args, kwargs):
+            if name == "int" and args and is_sym(args[0], "real") and args[0].t.sexpr() in s.ghost.get("__float_arith__", frozenset()):
+                s.ghost["__truncated_float__"] = tuple(s.ghost.get("__truncated_float__", ())) + (ast_line(eng_, s),)
+            return type(codec_hooks()).ext_call(self, eng_, s, name, args, kwargs)
+
+    def ast_line(eng_, s):
+        return s.env.get("__func__", "?")
+    eng = Engine(hooks=H())
+    P = eng.program
+    st = St()
+    dt = fresh("dt", "instant")
+    q = "lambda_service.TimestampConverter.to_unix_millis"
+    chk.function(q)
+    for k, v, s in eng.run(P.func(q), [dt], st=st):
+        chk.paths += 1
+        tr = s.ghost.get("__truncated_float__", ())
+        chk.prove("C20.timestamp.exact_millis", s.pc, z3.BoolVal(k == "val" and not tr),
+                  desc="to_unix_millis does not truncate a value computed in floating point (int(dt.timestamp() * 1000) can lose a whole millisecond on a millisecond-ALIGNED instant: the double product lands just below the integer); "
+                       "an exact conversion uses integer arithmetic on the timedelta since the epoch",
+                  regions={"float_product_truncated": z3.BoolVal(bool(tr))}, describe=lambda m: {"instant": "1970-01-01T00:00:01.001Z (aligned) -> 1000"}, replay=_replay_ts,
+                  sample="provenance of the operand of int() in to_unix_millis")
+    try:
+        r_ = native("timestamp_rounding_replay.py", {})
+        chk.notes.append(f"native run for C20.timestamp.exact_millis: confirmed={r_.get('confirmed')}; affected among 50000 aligned instants of 2020-2030: {r_.get('affected_among_50000_aligned_instants_2020_2030')}; cases={str(r_.get('cases'))[:400]}")
+    except Exception as e:  # noqa: BLE001
+        chk.notes.append(f"native run for C20.timestamp.exact_millis failed: {e!r}")
+    return eng
